@@ -833,8 +833,16 @@ pub fn c10_crafted(part: &mut Part) {
                         break;
                     }
                     let mut seqs: Vec<Vec<usize>> = vec![vec![i]];
-                    for j in 0..n {
-                        seqs.push(vec![i, j]);
+                    if TINY || !quick {
+                        for j in 0..n {
+                            seqs.push(vec![i, j]);
+                        }
+                    } else if reduced.contains(&i) {
+                        // real geometry, quick tier: pairs over the reduced set only (every image
+                        // is a 128 KiB file)
+                        for j in &reduced {
+                            seqs.push(vec![i, *j]);
+                        }
                     }
                     if !quick && reduced.contains(&i) {
                         for j in &reduced {
